@@ -107,7 +107,7 @@ def draw_params(d, fn, n, paylo, payhi, fill=0):
         p['fdt'] = [(d.bytes(6, None, 'addr%d' % i), d.int(0, 0xFFFF, 'ttl%d' % i),
                      d.int(0, 0xFFFF, 'remain%d' % i)) for i in range(n)]
     if fn in (R.FORWARDED_NPDU, R.DELETE_FDT_ENTRY):
-        p['addr'] = d.bytes(6, None, 'addr')
+        p['addr'], p['addr_form'] = draw_single_addr(d)
     if fn in R.HAS_NPDU:
         if fill:
             free = d.bytes(fill, None, 'npdu_free')
@@ -121,11 +121,31 @@ def draw_params(d, fn, n, paylo, payhi, fill=0):
     return p
 
 
-def mk_addr(six, tuple_form):
-    """an Address from its six octets, or from the (IPv4 as integer, port) tuple form"""
-    if tuple_form:
-        return Address((R.n32(six, 0), R.n16(six, 4)))
-    return Address(six)
+def mk_addr(six, form='tuple'):
+    """an Address for six B/IP octets.  'tuple': from the (IPv4 as integer, port) tuple form -
+    the only constructor form that runs on symbolic IPv4 octets (Address(bytes) computes
+    `ip & ~mask` with a negative constant, which makes the engine enumerate values;
+    Address(text) needs the digits).  'octets' / 'text' are used with literal IPv4 octets
+    and a symbolic port."""
+    if form == 'octets':
+        return Address(six)
+    if form == 'text':
+        return Address(("%d.%d.%d.%d" % (six[0], six[1], six[2], six[3]), R.n16(six, 4)))
+    return Address((R.n32(six, 0), R.n16(six, 4)))
+
+
+ADDR_LITERALS = [(192, 168, 0, 254), (0, 0, 0, 0), (255, 255, 255, 255)]
+
+
+def draw_single_addr(d):
+    """six octets + the constructor form: all octets symbolic (tuple form), or a literal
+    IPv4 address with a symbolic port through the octets / dotted text forms"""
+    form = d.pick(['tuple', 'octets', 'text'], 'addr_form')
+    if form == 'tuple':
+        return d.bytes(6, None, 'addr'), form
+    ip = d.pick(ADDR_LITERALS, 'addr_ip')
+    port = d.int(0, 0xFFFF, 'addr_port')
+    return bytes(list(ip) + R.u16(port)), form
 
 
 def build(fn, p):
@@ -135,25 +155,25 @@ def build(fn, p):
     if fn in R.HAS_BDT:
         bdt = []
         for i, (six, mask) in enumerate(p['bdt']):
-            a = mk_addr(six, i % 2 == 1)
+            a = mk_addr(six)
             a.addrMask = mask
             bdt.append(a)
         return k(bdt)
     if fn == R.FORWARDED_NPDU:
-        return k(mk_addr(p['addr'], p.get('tuple_form', False)), p['npdu'])
+        return k(mk_addr(p['addr'], p.get('addr_form', 'tuple')), p['npdu'])
     if fn == R.REGISTER_FD:
         return k(p['ttl'])
     if fn == R.READ_FDT_ACK:
         fdt = []
         for i, (six, ttl, remain) in enumerate(p['fdt']):
             e = B.FDTEntry()
-            e.fdAddress = mk_addr(six, i % 2 == 0)
+            e.fdAddress = mk_addr(six)
             e.fdTTL = ttl
             e.fdRemain = remain
             fdt.append(e)
         return k(fdt)
     if fn == R.DELETE_FDT_ENTRY:
-        return k(mk_addr(p['addr'], p.get('tuple_form', False)))
+        return k(mk_addr(p['addr'], p.get('addr_form', 'tuple')))
     if fn in R.HAS_NPDU:
         return k(p['npdu'])
     return k()
@@ -219,6 +239,23 @@ def check_header(fn, octets, via):
         raise Violation("length-field", fn=fn, field=field, emitted=len(octets), via=via)
 
 
+def check_body(fn, octets, p, via):
+    """the octets after the header are the Annex J fields of p, in order, and nothing else
+    (field by field: small solver queries, and the violation names the field)"""
+    off = 4
+    segs = R.fields(fn, p)
+    for i, (name, seg) in enumerate(segs):
+        if i == len(segs) - 1:
+            got = octets[off:]
+        else:
+            got = octets[off:off + len(seg)]
+        if got != seg:
+            raise Violation("body-layout", fn=fn, field=name, offset=off, got=got, want=seg, via=via)
+        off += len(seg)
+    if not segs and len(octets) != 4:
+        raise Violation("body-layout", fn=fn, field="(no fields)", offset=4, got=octets[4:], want=b'', via=via)
+
+
 # ------------------------------------------------------------------ harnesses
 @meta(bounds="one instance per function code 0..11 and shape; result code, TTL, remaining time 0..65535, every "
              "octet of every six-octet B/IP address (IPv4 + port), 32-bit masks 0..2^32-1 all symbolic; BDT/FDT "
@@ -234,17 +271,13 @@ def check_header(fn, octets, via):
       assumes=[])
 def bvll_rt(d, fn, n=0, paylo=0, payhi=0, fill=0):
     p = draw_params(d, fn, n, paylo, payhi, fill)
-    if fn in (R.FORWARDED_NPDU, R.DELETE_FDT_ENTRY):
-        p['tuple_form'] = d.bool('tuple_form')
-    want = R.frame(fn, p)
 
     # down through the real codec: what is emitted below it
     octets, exc = emit(build(fn, p))
     if exc is not None:
         raise Violation("encode-refused", fn=fn, exc=type(exc).__name__, via="codec")
     check_header(fn, octets, "codec")
-    if octets[4:] != want[4:]:
-        raise Violation("body-layout", fn=fn, got=octets, want=want, via="codec")
+    check_body(fn, octets, p, "codec")
 
     # those octets up through the real codec: what is delivered above it
     y, exc = receive(octets)
@@ -257,18 +290,17 @@ def bvll_rt(d, fn, n=0, paylo=0, payhi=0, fill=0):
     if exc is not None:
         raise Violation("encode-refused", fn=fn, exc=type(exc).__name__, via="direct")
     check_header(fn, o2, "direct")
-    if o2 != want:
-        raise Violation("body-layout", fn=fn, got=o2, want=want, via="direct")
+    check_body(fn, o2, p, "direct")
     b = B.BVLPDU()
     try:
-        b.decode(PDU(want))
+        b.decode(PDU(o2))
         z = CLASSES[fn]()
         z.decode(b)
     except Exception as e:
         raise Violation("own-frame-refused", fn=fn, exc=type(e).__name__, via="direct")
-    if b.bvlciType != 0x81 or b.bvlciFunction != fn or b.bvlciLength != len(want):
+    if b.bvlciType != 0x81 or b.bvlciFunction != fn or b.bvlciLength != len(o2):
         raise Violation("header-restored", fn=fn, type=b.bvlciType, function=b.bvlciFunction,
-                        length=b.bvlciLength, want_length=len(want))
+                        length=b.bvlciLength, want_length=len(o2))
     check_restored(fn, p, z, "direct")
     d.reach()
 
@@ -352,11 +384,14 @@ def reencode_rule(d, y, data, strict, fn):
       stubs=["socket.inet_aton/inet_ntoa (opaque dotted quad of symbolic octets)"],
       assumes=[])
 def bvll_decode_total(d, n, part):
-    data = d.bytes(0, n, 'octets')
     if part < 12:
-        d.assume(len(data) >= 2)
-        d.assume(data[1] == part)
+        # the function octet is concrete (the registry is a dict of classes: the engine
+        # cannot call a class selected by a symbolic key), everything else is free
+        t = d.int(0, 255, 'type')
+        rest = d.bytes(0, n - 2, 'rest')
+        data = bytes([t, part]) + rest
     else:
+        data = d.bytes(0, n, 'octets')
         d.assume(len(data) < 2 or data[1] >= 12)
     ref = R.parse(data)
     y, exc = receive(data)
@@ -438,12 +473,12 @@ def ip_forms(d):
         raise Violation("pack-unpack", six=six, got=bytes(pack_ip_addr(t)))
     if unpack_ip_addr(bytearray(six))[1] != port:
         raise Violation("unpack-port", six=six, form="bytearray")
-    for a in (Address(six), Address((R.n32(six, 0), port)), Address(t)):
+    for form, a in (("int-tuple", Address((R.n32(six, 0), port))), ("text-tuple", Address(t))):
         if not addr_is(a, six) or a.addrLen != 6:
-            raise Violation("address-octets", six=six, got=a.addrAddr)
+            raise Violation("address-octets", six=six, form=form, got=a.addrAddr)
         if a.addrPort != port:
-            raise Violation("address-port", six=six, got=a.addrPort)
-    # dotted text on literals
+            raise Violation("address-port", six=six, form=form, got=a.addrPort)
+    # dotted text and the octets form on literals, port symbolic
     text, octs = d.pick(IP_LITERALS, 'literal')
     p2 = d.int(0, 0xFFFF, 'port')
     want = bytes(list(octs) + R.u16(p2))
@@ -452,9 +487,11 @@ def ip_forms(d):
     back = unpack_ip_addr(want)
     if back[0] != text or back[1] != p2:
         raise Violation("unpack-literal", text=text, port=p2, got=back)
-    a = Address((text, p2))
-    if not addr_is(a, want):
-        raise Violation("address-literal", text=text, port=p2, got=a.addrAddr)
+    for form, a in (("text-tuple", Address((text, p2))), ("octets", Address(want))):
+        if not addr_is(a, want) or a.addrLen != 6:
+            raise Violation("address-literal", text=text, port=p2, form=form, got=a.addrAddr)
+        if a.addrPort != p2 or a.addrTuple != (text, p2):
+            raise Violation("address-literal-tuple", text=text, port=p2, form=form, got=a.addrTuple)
     d.reach()
 
 
